@@ -55,6 +55,10 @@ IndexAgreesK(idx, vs) ==
     idx # NoIdx => /\ Latest(vs).rev = idx.rev
                    /\ (Latest(vs).val = TOMB) = idx.del
 
+\* every key stays writable with normal semantics: the index of a live key names its newest version,
+\* a dead key has no index or a tombstoned one (over which a create may compare-and-swap)
+Writable(ix, vs) == LET x == Latest(vs) IN IF IsLive(x) THEN ix = [rev |-> x.rev, del |-> FALSE] ELSE (ix = NoIdx \/ ix.del)
+
 \* event that a successful write produces
 EvCreate == "CREATE"
 EvPut    == "PUT"
